@@ -78,6 +78,7 @@ class Ctx:
         self.caps = []
         self.slowest = (0.0, None)
         self.nontrivial_n = 0
+        self.obs = {}
 
 
 _MOD = None
@@ -161,6 +162,8 @@ def run_check(prop, tier=None, seed=None, only=None):
             ctx.viol.append((desc, v))
         if len(ctx.samples) < 6 and r.get("sample") is not None:
             ctx.samples.append(r["sample"])
+        if "obs" in r:
+            ctx.obs[dumps(desc, sort_keys=True)] = r["obs"]
         if r["_t"] > ctx.slowest[0]:
             ctx.slowest = (r["_t"], desc)
 
